@@ -316,8 +316,9 @@ class ShareableThreadLock:
                 self._acquired_by[thread_id] -= 1
                 if not self._acquired_by[thread_id]:
                     del self._acquired_by[thread_id]  # NOTE: GC
-                    if not self._acquired_by:
-                        self._condition.notify_all()
+                    # NOTE: A waiter may itself hold the lock shared (upgrade),
+                    # so wake waiters whenever this thread stops holding.
+                    self._condition.notify_all()
             finally:
                 self._condition.release()
 
